@@ -305,8 +305,11 @@ func c01KeyAtRank(c *Ctx, a *sketchAnchors, rule string) {
 					if yr {
 						other = bo.X
 					}
-					if cst, ok := other.(*ssa.Const); ok && cst.Value != nil && cst.Value.String() == "0" {
-						continue // the clamp of negative ranks
+					if _, ok := other.(*ssa.Const); ok {
+						continue // a test of the rank against a constant (the clamp of negative ranks, a NaN/Inf shortcut) selects no bin
+					}
+					if xr && yr {
+						continue // rank != rank: a NaN test
 					}
 					nCmp++
 					t := tc.Of(bo)
